@@ -48,14 +48,31 @@ pub struct InitCase {
     pub frames: usize,
     pub alloc_all: bool,
     pub with_slot: bool,
+    /// byte the `trees` and `lower` buffers are filled with before construction (0 = zeroed):
+    /// FreeAll/AllocAll must overwrite whatever a previous user left there
+    #[serde(default)]
+    pub dirty: u8,
 }
 
 pub fn c06_check(c: &InitCase) -> Result<(bool, Vec<&'static str>), String> {
     let n = c.frames;
     let classes = ClassKind::Simple([1, 1]);
-    let tag = format!("[C06] frames={n} init={}", if c.alloc_all { "AllocAll" } else { "FreeAll" });
+    let tag = format!(
+        "[C06] frames={n} init={}{}",
+        if c.alloc_all { "AllocAll" } else { "FreeAll" },
+        if c.dirty != 0 { format!(" (trees/lower buffers pre-filled with {:#04x})", c.dirty) } else { String::new() }
+    );
+    let dirty = c.dirty;
     let build = |init| {
-        g("new", || Inst::build_with(n, init, &classes, None))?
+        let classing = classes.classing();
+        let ms = LLFree::metadata_size(&classing, n);
+        let mut bufs = Bufs::new(&ms);
+        if dirty != 0 {
+            // the local buffer stays zeroed: Locals::new documents no initialization of its own
+            bufs.trees.fill(dirty);
+            bufs.lower.fill(dirty);
+        }
+        g("new", || Inst::build_with(n, init, &classes, Some(bufs)))?
             .map_err(|e| format!("{tag}: construction failed with {e:?}"))
     };
     let slot = if c.with_slot { Some(0) } else { None };
@@ -192,7 +209,7 @@ pub fn run_c06(ctx: &Ctx) -> Finish {
         &ctx.tier,
         ctx.seed,
         "exploration",
-        "inputs = (managed frame count, init mode, with/without slot). Enumerated: every count 1..200 and every count within +-70 of each multiple of HUGE_FRAMES up to 4 trees (thorough: every count 1..=4*TREE_FRAMES+70), both init modes; plus proptest-sampled counts. FreeAll oracle: counts = (n, n/HUGE, n/TREE), every managed frame reported free and no frame in [n, round_up(n,HUGE)), exhaustive base-order allocation yields exactly n distinct frames < n and then Memory. AllocAll oracle: nothing free, allocation fails, every whole huge frame frees exactly once at huge order, every tail frame exactly once at base order, afterwards all counts and the per-frame view equal a FreeAll twin (differential) and validate() passes. Non-trivial = count that is not a multiple of HUGE_FRAMES or leaves the last tree short; distinct by case hash.",
+        "inputs = (managed frame count, init mode, with/without slot, pre-fill byte of the trees/lower buffers: zeroed, 0xFF, 0xA5 or generated - FreeAll/AllocAll must overwrite whatever was there; the local buffer stays zeroed). Enumerated: every count 1..200 and every count within +-70 of each multiple of HUGE_FRAMES up to 4 trees (thorough: every count 1..=4*TREE_FRAMES+70), both init modes; plus proptest-sampled counts. FreeAll oracle: counts = (n, n/HUGE, n/TREE), every managed frame reported free and no frame in [n, round_up(n,HUGE)), exhaustive base-order allocation yields exactly n distinct frames < n and then Memory. AllocAll oracle: nothing free, allocation fails, every whole huge frame frees exactly once at huge order, every tail frame exactly once at base order, afterwards all counts and the per-frame view equal a FreeAll twin (differential) and validate() passes. Non-trivial = count that is not a multiple of HUGE_FRAMES or leaves the last tree short; distinct by case hash.",
     );
     let max = 4 * TREE_FRAMES + 70;
     let mut counts: Vec<usize> = Vec::new();
@@ -215,6 +232,7 @@ pub fn run_c06(ctx: &Ctx) -> Finish {
                 frames: counts[(i / 2) as usize],
                 alloc_all: i % 2 == 1,
                 with_slot: (i / 2) % 2 == 0,
+                dirty: [0u8, 0xff, 0, 0xa5][(i / 4 % 4) as usize],
             })
         },
         |c| verdict("C06", c06_check(c)),
@@ -228,11 +246,12 @@ pub fn run_c06(ctx: &Ctx) -> Finish {
         ctx.seed,
         ctx.scale(if thorough { 20_000 } else { 1_500 }),
         || {
-            (1..=max, any::<bool>(), any::<bool>())
-                .prop_map(|(frames, alloc_all, with_slot)| InitCase {
+            (1..=max, any::<bool>(), any::<bool>(), prop_oneof![Just(0u8), any::<u8>()])
+                .prop_map(|(frames, alloc_all, with_slot, dirty)| InitCase {
                     frames,
                     alloc_all,
                     with_slot,
+                    dirty,
                 })
                 .boxed()
         },
